@@ -173,7 +173,9 @@ def run_proc_on_file(exe, inp, outp, timeout):
 
 def answer_lines(exe, lines, timeout=120):
     """Runs one process on a small list of request lines (used by shrinking / replay)."""
-    cmd = [exe, "serve"] if exe != DRIVER else [exe]
+    if exe != DRIVER:
+        return serve_with_restarts(exe, list(lines), timeout)[0]
+    cmd = [exe]
     try:
         r = subprocess.run(cmd, input="".join(l + "\n" for l in lines), stdout=subprocess.PIPE,
                            stderr=subprocess.DEVNULL, text=True, timeout=timeout)
@@ -187,9 +189,66 @@ def answer_lines(exe, lines, timeout=120):
     return out
 
 
+def serve_with_restarts(harness, lines, timeout):
+    """Answers `lines` with the harness.  The harness has a per-request watchdog (it prints `timeout` and exits) and may
+    die on a request (abort, stack overflow): in both cases the offending request is recorded, answered `timeout` /
+    `died`, and the harness is restarted on the remaining requests.  Returns (answers, problems)."""
+    problems = []
+    answers = []
+    done = 0
+    restarts = 0
+    deadline = time.time() + timeout
+    while done < len(lines):
+        try:
+            p = subprocess.run([harness, "serve"], input="".join(l + "\n" for l in lines[done:]), stdout=subprocess.PIPE,
+                               stderr=subprocess.DEVNULL, text=True, timeout=max(5, deadline - time.time()))
+            out = p.stdout.split("\n")
+            rc = p.returncode
+        except subprocess.TimeoutExpired as e:
+            out = (e.stdout.decode() if isinstance(e.stdout, bytes) else (e.stdout or "")).split("\n")
+            rc = -9
+        complete = out[:-1]          # what follows the last newline is a partial line (or empty)
+        if rc == 0 and len(complete) >= len(lines) - done:
+            answers.extend(complete[:len(lines) - done])
+            done = len(lines)
+            break
+        if complete and complete[-1] == "timeout":
+            culprit = done + len(complete) - 1
+            what = "no answer within the watchdog limit (hang)"
+            answers.extend(complete)
+        else:
+            culprit = done + len(complete)
+            what = "the process died (exit status %d)" % rc
+            answers.extend(complete)
+            if culprit < len(lines):
+                answers.append("died")
+        if culprit >= len(lines):
+            break
+        problems.append(("impl", lines[culprit], what))
+        done = culprit + 1
+        restarts += 1
+        if restarts > 3 or time.time() > deadline:
+            answers.extend(["skipped"] * (len(lines) - done))
+            log("  harness restarted %d times on one shard; the remaining %d requests of the shard are skipped" % (restarts, len(lines) - done))
+            break
+    answers = (answers + ["skipped"] * len(lines))[:len(lines)]
+    return answers, problems
+
+
+def run_impl_shard(harness, shard, outp, timeout):
+    lines = open(shard).read().split("\n")
+    if lines and lines[-1] == "":
+        lines.pop()
+    answers, problems = serve_with_restarts(harness, lines, timeout)
+    with open(outp, "w") as fo:
+        fo.write("".join(a + "\n" for a in answers))
+    return problems
+
+
 def run_sharded(harness, req_path, workdir, timeout):
     """Splits the request file into NPROC shards and runs harness and driver on each in parallel.
-    Returns (impl_paths, model_paths, problems)."""
+    Returns (shards, problems) with problems = [(side, request line or shard, what)]."""
+    import concurrent.futures
     n = NPROC
     base = os.path.join(workdir, os.path.basename(req_path) + ".sh.")
     for f in glob.glob(base + "*"):
@@ -198,24 +257,25 @@ def run_sharded(harness, req_path, workdir, timeout):
     shards = sorted(glob.glob(base + "[0-9][0-9]"))
     procs = []
     for s in shards:
-        for kind, exe in (("impl", harness), ("model", DRIVER)):
-            outp = s + "." + kind
-            fi = open(s, "rb")
-            fo = open(outp, "wb")
-            cmd = [exe, "serve"] if kind == "impl" else [exe]
-            p = subprocess.Popen(cmd, stdin=fi, stdout=fo, stderr=subprocess.DEVNULL)
-            procs.append((p, kind, s, outp, fi, fo))
+        fi = open(s, "rb")
+        fo = open(s + ".model", "wb")
+        p = subprocess.Popen([DRIVER], stdin=fi, stdout=fo, stderr=subprocess.DEVNULL)
+        procs.append((p, s, fi, fo))
     problems = []
+    with concurrent.futures.ThreadPoolExecutor(max_workers=len(shards) or 1) as ex:
+        futs = [ex.submit(run_impl_shard, harness, s, s + ".impl", timeout) for s in shards]
+        for f in futs:
+            problems.extend(f.result())
     deadline = time.time() + timeout
-    for p, kind, s, outp, fi, fo in procs:
+    for p, s, fi, fo in procs:
         try:
             rc = p.wait(timeout=max(1, deadline - time.time()))
             if rc != 0:
-                problems.append((kind, s, "exit status %d" % rc))
+                problems.append(("model", s, "exit status %d" % rc))
         except subprocess.TimeoutExpired:
             p.kill()
             p.wait()
-            problems.append((kind, s, "timeout"))
+            problems.append(("model", s, "timeout"))
         fi.close()
         fo.close()
     return shards, problems
